@@ -153,6 +153,41 @@ def strip_dir_links(entries):
 
 
 # ---------------------------------------------------------------- cases
+def derived_excludes(rng, rel):
+    """patterns built from paths of the tree: full paths, anchored, dir/*, **/name, name/, *.ext, and
+    prune-versus-negation pairs (a directory pattern followed by a negation for something inside)"""
+    from pathspec import GitIgnoreSpec
+    pats = []
+    for _ in range(rng.choice([1, 1, 2, 3])):
+        p = rng.choice(rel)
+        base = p.split("/")[-1]
+        parent = "/".join(p.split("/")[:-1])
+        r = rng.random()
+        if r < 0.2:
+            pats.append(p)
+        elif r < 0.3:
+            pats.append("/" + p)
+        elif r < 0.45 and parent:
+            pats.append(parent + "/*")
+        elif r < 0.55:
+            pats.append("**/" + base)
+        elif r < 0.65:
+            pats.append(base)
+        elif r < 0.72:
+            pats.append(base + "/")
+        elif r < 0.80 and "." in base[1:]:
+            pats.append("*." + base.split(".")[-1])
+        elif r < 0.92 and parent:
+            pats += [parent.split("/")[-1], "!" + base]
+        else:
+            pats += ["*", "!" + base]
+    try:
+        GitIgnoreSpec.from_lines("gitwildmatch", pats)
+    except Exception:  # noqa
+        return ["*.pyc"]
+    return pats
+
+
 def path_variants(rng, p):
     r = rng.random()
     if r < 0.45 or p in ("", "."):
@@ -250,7 +285,22 @@ def gen_case(rng):
     else:
         lstrip = rng.choice([["src/"], ["lib/", "src/"], ["./"], ["a"], ["a", "ab"], ["a/", "a/b/"], ["x", "x"], [""],
                              ["a/", "b/"], ["file:"], ["a\\"], ["zzz"], ["sub/", "a/"], ["lnk/", "a/"], ["b/", "lnk/"]])
-    args = {"artifacts": arts, "exclude_patterns": rng.choice(EXCLUDES), "base_path": base_path,
+    rel = [relpath(eff, c) for c, _, _, _ in nodes if c[:len(eff)] == eff and len(c) > len(eff) and ".." not in c]
+    excludes = rng.choice(EXCLUDES)
+    if rel and rng.random() < 0.45:
+        excludes = derived_excludes(rng, rel)
+        tags.append("excl-derived")
+    deep = [r.split("/") for r in rel if r.count("/") >= 2]
+    if deep and rng.random() < 0.12:
+        cs = rng.choice(deep)
+        i = rng.randrange(0, len(cs) - 2)
+        lstrip = [cs[i] + "/", cs[i + 1] + "/"] if cs[i] != cs[i + 1] else [cs[i] + "/"]
+        if rng.random() < 0.3:
+            lstrip.reverse()
+        if rng.random() < 0.5:
+            arts = [rng.choice([".", "/".join(cs[:i + 1]), "file:" + "/".join(cs[:i + 1])])]
+        tags.append("lstrip-nested")
+    args = {"artifacts": arts, "exclude_patterns": excludes, "base_path": base_path,
             "follow": rng.random() < 0.5, "normalize": rng.random() < 0.4, "lstrip": lstrip}
     # malformed stream
     if rng.random() < 0.06:
